@@ -25,6 +25,16 @@ claim("C10", "symx",
       "reals not floats (A1); scipy.special as uninterpreted functions with range facts; z3 and sympy trusted; relative axis gaps of 1e-15 outside",
       "DESIGN.md §6 C10")
 
+claim("C04", "symx",
+      "bounded symbolic execution + SMT (z3 QF_NRA) of the real Polygon/ConvexPolygon code with free vertex coordinates",
+      "Polygon/ConvexPolygon constructors and getters are executed with all 2n in-plane coordinates free (n = 3, 4 quick; 5, 6 thorough), in the xy-plane "
+      "and in tilted planes (rational rotation, free offset), default and explicit normals of either sign, both orientations; area, signed area, perimeter, "
+      "centroid, planar and polar moments and the inertia tensor are compared with an independent fan-decomposition oracle and the solver shows the "
+      "residual cannot be non-zero on any explored path. Bounded: n <= 6, path budget per obligation, alternatives the solver could not refute are counted "
+      "in the evidence. Counterexamples are replayed on the float64 code.",
+      "reals not floats (A1); kabsch and 2-D qhull replaced by contract stubs; simplicity of the input is a precondition (orientation predicates); z3/sympy trusted",
+      "DESIGN.md §6 C04")
+
 ALL = ["C%02d" % i for i in range(1, 21)]
 
 
